@@ -304,6 +304,8 @@ def marshalHeader (m : Msg) (serial : Nat) : Option (List UInt8) :=
       | none => none
       | some b8 =>
         let b9 := if m.nfds = 0 then b8 else putU32Field m.bo 9 (some m.nfds) b8
+        -- the field array is an array: at most 64 MiB
+        if b9.length - 16 > maxArrayLen then none else
         -- patch the field array length (everything after byte 16), then pad to 8
         let patched := b9.take 12 ++ (bytesOf m.bo 4 (b9.length - 16) ++ b9.drop 16)
         let out := padTo 8 patched
